@@ -102,7 +102,11 @@ def projection_only(fn: ast.AST, key: ast.expr, param: str) -> List[str]:
             if isinstance(n, ast.Name) and n.id in aliases and isinstance(n.ctx, ast.Load):
                 par = getattr(n, "_parent", None)
                 if isinstance(par, ast.Attribute) and par.value is n:
-                    projections.append(f"{n.id}.{par.attr}")
+                    gp = getattr(par, "_parent", None)
+                    if isinstance(gp, ast.Call) and gp.func is par:
+                        whole = True  # method call on the value (judged by the lossy-step rule), not a field projection
+                    else:
+                        projections.append(f"{n.id}.{par.attr}")
                 elif isinstance(par, ast.comprehension) and par.iter is n:
                     continue
                 else:
